@@ -1,6 +1,9 @@
 import ImathVerif.Props.C01Preds
 import ImathVerif.Enum.C01.All
 import ImathVerif.Lemmas.HalfRNE
+import ImathVerif.Lemmas.HalfUnique
+import ImathVerif.Spec.HalfVal
+import Mathlib.Tactic.SplitIfs
 /-!
 # C01 — float<->half conversion is exact IEEE-754 binary16, round-to-nearest-even
 
@@ -17,6 +20,16 @@ midpoint with ties to even.
 Scales: `fval u` is the float magnitude times 2^149, `hval149 m` the half magnitude on the
 same scale (`hval149 0x7c00 = 2^16 * 2^149`), `IsRNE16 X r` says `r` is the nearest
 magnitude pattern to `X` with ties to the even pattern (Spec/HalfSpec.lean).
+`IsRNE16 X ·` has exactly one solution (`IsRNE16_unique`, hence `f2h_is_the_rne`).
+
+The scaled naturals are tied to the textbook ℚ-valued IEEE-754 denotations `halfMagQ`,
+`floatMagQ`, `halfQ`, `floatQ` by `Spec/HalfVal.lean` (`hval = halfMagQ · 2^24`,
+`fval = floatMagQ · 2^149`, `IsRNE16 ↔ IsRNE16Q`); the `_Q` theorems at the end restate the
+property over ℚ.
+
+The `f2hExc_*` theorems are about the `IMATH_HALF_ENABLE_FP_EXCEPTIONS` variant of the same
+function (model `f2hExc`, tied by the `fpexc` configuration of the check): same bits, and
+FE_OVERFLOW / FE_UNDERFLOW exactly on the sets characterised by `f2h_overflow` / `f2h_flush`.
 -/
 namespace ImathVerif.Half.C01
 open ImathVerif ImathVerif.Half ImathVerif.Gen ImathVerif.Enum.C01
@@ -175,5 +188,125 @@ theorem f2h_subnormal_correct : ∀ v, v < 4294967296 → v % 2147483648 < 0x388
 
 example : (0x387fffff : Nat) < 4294967296 ∧ 0x387fffff % 2147483648 < 0x38800000 ∧
     f2h 0x387fffff = 0x0400 := by decide
+
+/-! ### the specification determines the result -/
+
+/-- `IsRNE16 X ·` has at most one solution: nearest-with-ties-to-even names *the* value -/
+theorem IsRNE16_unique : ∀ X r r', IsRNE16 X r → IsRNE16 X r' → r = r' :=
+  ImathVerif.Half.IsRNE16_unique
+
+/-- hence `f2h` returns the one and only round-to-nearest-even magnitude of every finite float -/
+theorem f2h_is_the_rne : ∀ v, v < 4294967296 → v % 2147483648 < 0x7f800000 →
+    ∀ r, IsRNE16 (fval (v % 2147483648)) r → f2h v % 32768 = r := by
+  intro v hv hfin r hr
+  exact ImathVerif.Half.IsRNE16_unique _ _ _ (f2h_nearest v hv hfin) hr
+
+-- non-vacuity: the spec has a solution at a tie (so the theorem above is not about an empty set)
+example : (0x38803000 : Nat) < 4294967296 ∧ 0x38803000 % 2147483648 < 0x7f800000 ∧
+    IsRNE16 (fval (0x38803000 % 2147483648)) 0x402 :=
+  ⟨by decide, by decide, by
+    have h := f2h_nearest 0x38803000 (by decide) (by decide)
+    rwa [show f2h 0x38803000 % 32768 = 0x402 by decide] at h⟩
+
+/-! ### the FP-exceptions build (`-DIMATH_HALF_ENABLE_FP_EXCEPTIONS`) -/
+
+/-- which exception the variant raises, as a function of the magnitude bits -/
+theorem f2hExc_snd (v : Nat) : (f2hExc v).2 =
+    if 0x477ff000 ≤ v % 2147483648 ∧ v % 2147483648 < 0x7f800000 then 1
+    else if 0 < v % 2147483648 ∧ v % 2147483648 < 0x33000001 then 2 else 0 := by
+  unfold f2hExc
+  simp only [and_0x7fffffff]
+  split_ifs <;> first | rfl | omega
+
+/-- the FP-exceptions variant returns the same bits as the plain function, on every input -/
+theorem f2hExc_val : ∀ v, (f2hExc v).1 = f2h v := by
+  intro v
+  unfold f2hExc f2h
+  simp only []
+  split_ifs <;> rfl
+
+/-- FE_OVERFLOW is raised exactly when a finite float becomes infinity (`f2h_overflow`) -/
+theorem f2hExc_overflow : ∀ v, v < 4294967296 →
+    ((f2hExc v).2 = 1 ↔ v % 2147483648 < 0x7f800000 ∧ f2h v % 32768 = 0x7c00) := by
+  intro v hv
+  rw [f2hExc_snd]
+  constructor
+  · intro h
+    split_ifs at h with h1 h2
+    · exact ⟨h1.2, (f2h_overflow v hv (by omega)).2 h1.1⟩
+    · omega
+  · rintro ⟨h1, h2⟩
+    have := (f2h_overflow v hv (by omega)).1 h2
+    rw [if_pos ⟨this, h1⟩]
+
+/-- FE_UNDERFLOW is raised exactly when a non-zero float is flushed to zero (`f2h_flush`) -/
+theorem f2hExc_underflow : ∀ v, v < 4294967296 →
+    ((f2hExc v).2 = 2 ↔ v % 2147483648 ≠ 0 ∧ f2h v % 32768 = 0) := by
+  intro v hv
+  have hz := f2hMag_zero_iff (v % 2147483648) (Nat.mod_lt _ (by decide))
+  rw [f2hExc_snd, f2h_mod v hv, hz]
+  constructor
+  · intro h
+    split_ifs at h with h1 h2
+    · omega
+    · omega
+  · rintro ⟨h1, h2⟩
+    rw [if_neg (by omega), if_pos (by omega)]
+
+/-- nothing else is ever raised -/
+theorem f2hExc_flags : ∀ v, (f2hExc v).2 = 0 ∨ (f2hExc v).2 = 1 ∨ (f2hExc v).2 = 2 := by
+  intro v
+  rw [f2hExc_snd]
+  split_ifs <;> simp
+
+example : f2hExc 0xc77ff000 = (0xfc00, 1) ∧ f2hExc 0x477fefff = (0x7bff, 0) ∧
+    f2hExc 0x7f800000 = (0x7c00, 0) ∧ f2hExc 0x80000000 = (0x8000, 0) ∧
+    f2hExc 0x80000001 = (0x8000, 2) ∧ f2hExc 0x33000000 = (0, 2) ∧ f2hExc 0x33000001 = (1, 0) := by
+  decide
+
+/-! ### the same statements over ℚ (textbook IEEE-754 denotations, Spec/HalfVal.lean) -/
+
+/-- half -> float is exact: every finite half pattern and its float denote the same rational -/
+theorem h2f_exact_Q : ∀ h, h < 65536 → isNan h = false → isInfinity h = false →
+    floatQ (h2f h) = halfQ h := by
+  intro h hh hn hi
+  obtain ⟨_, hs, _, hf⟩ := h2f_exact h hh hn
+  obtain ⟨_, hv⟩ := hf hi
+  unfold floatQ halfQ
+  rw [hs]
+  have e : (fval (h2f h % 2147483648) : ℚ) = (hval149 (h % 32768) : ℚ) := by rw [hv]
+  rw [fval_eq_floatMagQ, hval149_eq_halfMagQ] at e
+  have hp : (2 : ℚ) ^ 149 ≠ 0 := by positivity
+  rw [mul_right_cancel₀ hp e]
+
+example : (0x8001 : Nat) < 65536 ∧ isNan 0x8001 = false ∧ isInfinity 0x8001 = false ∧
+    halfQ 0x8001 = -(1 / 2 ^ 24) := by
+  refine ⟨by decide, by decide, by decide, ?_⟩
+  unfold halfQ halfMagQ; norm_num
+
+/-- float -> half is round-to-nearest-even over ℚ, and the result is the only such pattern -/
+theorem f2h_nearest_Q : ∀ v, v < 4294967296 → v % 2147483648 < 0x7f800000 →
+    IsRNE16Q (floatMagQ (v % 2147483648)) (f2h v % 32768) ∧
+    ∀ r, IsRNE16Q (floatMagQ (v % 2147483648)) r → f2h v % 32768 = r := by
+  intro v hv hfin
+  refine ⟨(isRNE16_iff_Q _ _).1 (f2h_nearest v hv hfin), fun r hr => ?_⟩
+  exact f2h_is_the_rne v hv hfin r ((isRNE16_iff_Q _ _).2 hr)
+
+/-- a finite float becomes infinity iff its magnitude is at least 65520 -/
+theorem f2h_overflow_Q : ∀ v, v < 4294967296 → v % 2147483648 < 0x7f800000 →
+    (f2h v % 32768 = 0x7c00 ↔ (65520 : ℚ) ≤ floatMagQ (v % 2147483648)) := by
+  intro v hv hfin
+  rw [f2h_overflow_val v hv hfin, ← Nat.cast_le (α := ℚ), fval_eq_floatMagQ]
+  rw [show ((65520 * 2 ^ 149 : Nat) : ℚ) = 65520 * 2 ^ 149 by norm_num]
+  exact mul_le_mul_iff_of_pos_right (by positivity : (0 : ℚ) < 2 ^ 149)
+
+/-- a finite float becomes (signed) zero iff its magnitude is at most 2^-25 -/
+theorem f2h_flush_Q : ∀ v, v < 4294967296 → v % 2147483648 < 0x7f800000 →
+    (floatMagQ (v % 2147483648) ≤ 1 / 2 ^ 25 ↔ f2h v % 32768 = 0) := by
+  intro v hv _
+  rw [← f2h_flush v hv, ← Nat.cast_le (α := ℚ), fval_eq_floatMagQ]
+  have hp : (0 : ℚ) < 2 ^ 149 := by positivity
+  rw [show ((2 ^ 124 : Nat) : ℚ) = 1 / 2 ^ 25 * 2 ^ 149 by norm_num]
+  exact (mul_le_mul_iff_of_pos_right hp).symm
 
 end ImathVerif.Half.C01
